@@ -388,3 +388,50 @@ Definition cmp_read (c : read_case) : list (nat * nat * nat) :=
         (if list_all2 dload_round (ob_dl o) (lb_dl m) then [] else [(5, fst p, 5)%nat]))
       (indexed (combine (st_bars s) (rc_bars c)))
   end.
+
+(* ---- stage P: the reader of preprocessed files ---- *)
+From Inkfem Require Import Model.ReadPre.
+Record o_pnode := { on_t : Q; on_x : Q; on_y : Q; on_ext : tor Q; on_left : tor Q; on_right : tor Q; on_dof : nat * nat * nat }.
+Record pre_case := {
+  pc_text : string;
+  pc_panic : nat;
+  pc_dofs : nat; pc_weight : bool;
+  pc_nodes : list (string * Q * Q * link * option (nat * nat * nat));
+  pc_bars : list (o_bar * list o_pnode) }.
+
+Definition perr_code (e : perr) : nat :=
+  match e with
+  | PDef e' => err_code e' | PDofCount => 20 | POwnWeight => 21 | POrder => 22 | PLines => 23 | PNodeLine => 8 | PChecksum => 25
+  end%nat.
+Definition tor_round (go m : tor Q) : bool :=
+  is_rounding_of (t_fx go) (t_fx m) && is_rounding_of (t_fy go) (t_fy m) && is_rounding_of (t_mz go) (t_mz m).
+Definition pnode_round (o : o_pnode) (m : prnode) : bool :=
+  is_rounding_of (on_t o) (pr_t m) && is_rounding_of (on_x o) (pr_x m) && is_rounding_of (on_y o) (pr_y m) &&
+  tor_round (on_ext o) (pr_ext m) && tor_round (on_left o) (pr_left m) && tor_round (on_right o) (pr_right m) &&
+  dof_eqb (Some (on_dof o)) (Some (pr_dof m)).
+
+(* mismatch codes: (1, model, observed) verdict; (2, _, _) equation count / own weight flag; (3, k, _) node; (4, n, _) node count;
+   (5, k, field) bar k: 1 header, 2 material, 3 section, 6 slice nodes; (6, n, _) bar count *)
+Definition cmp_pre (c : pre_case) : list (nat * nat * nat) :=
+  match read_pre (pc_text c) with
+  | PErr e => if Nat.eqb (perr_code e) (pc_panic c) then [] else [(1, perr_code e, pc_panic c)%nat]
+  | POk s =>
+    if negb (Nat.eqb (pc_panic c) 0) then [(1, 0, pc_panic c)%nat] else
+    (if Nat.eqb (ps_dofs s) (pc_dofs c) && Bool.eqb (ps_weight s) (pc_weight c) then [] else [(2, ps_dofs s, 0)%nat]) ++
+    (if Nat.eqb (List.length (ps_nodes s)) (List.length (pc_nodes c)) then [] else [(4, List.length (ps_nodes s), 0)%nat]) ++
+    flat_map (fun p => let '(id, x, y, lk, dof) := snd p in
+        match lookup_by rn_id id (ps_nodes s) with
+        | Some n => if is_rounding_of x (rn_x n) && is_rounding_of y (rn_y n) && link_eqb lk (rn_c n) && dof_eqb dof (rn_dof n)
+                    then [] else [(3, fst p, 1)%nat]
+        | None => [(3, fst p, 0)%nat]
+        end) (indexed (pc_nodes c)) ++
+    (if Nat.eqb (List.length (ps_bars s)) (List.length (pc_bars c)) then [] else [(6, List.length (ps_bars s), 0)%nat]) ++
+    flat_map (fun p => let m := fst (snd p) in let o := fst (snd (snd p)) in let ons := snd (snd (snd p)) in
+        let lb := pb_link m in let b := lb_bar lb in
+        (if String.eqb (rb_id b) (ob_id o) && String.eqb (rb_n1 b) (ob_n1 o) && String.eqb (rb_n2 b) (ob_n2 o) &&
+            link_eqb (rb_l1 b) (ob_l1 o) && link_eqb (rb_l2 b) (ob_l2 o) then [] else [(5, fst p, 1)%nat]) ++
+        (if String.eqb (rm_name (lb_material lb)) (ob_mat o) && all_round (ob_matv o) (rm_vals (lb_material lb)) then [] else [(5, fst p, 2)%nat]) ++
+        (if String.eqb (rs_name (lb_section lb)) (ob_sec o) && all_round (ob_secv o) (rs_vals (lb_section lb)) then [] else [(5, fst p, 3)%nat]) ++
+        (if list_all2 pnode_round ons (pb_pnodes m) then [] else [(5, fst p, 6)%nat]))
+      (indexed (combine (ps_bars s) (pc_bars c)))
+  end.
